@@ -90,6 +90,10 @@ func writeEvidence(prop string, meta *PropMeta, tier string, seed int64, all []*
 		"components_stub":     meta.Stub,
 		"interleaving_measure": "distinct_nontrivial counts distinct (hook-site adjacency set + storage-shape + fault counters + event-log hash) among non-trivial runs",
 	}
+	if counts["tv.programs"] > 0 {
+		cov["programs"] = counts["tv.programs"]
+		cov["disagreements_checked"] = counts["tv.compared"]
+	}
 	ev := map[string]interface{}{
 		"property_id": prop,
 		"tier":        tier,
